@@ -39,7 +39,7 @@ def attr_path(node) -> str | None:
     return None
 
 
-SPEC_NAMES = {"old", "forall", "exists", "implies", "iff", "ite", "len", "min", "max", "abs", "ord", "chr", "result", "True", "False", "None", "ntokens", "new_tokens", "strfun", "aslist",
+SPEC_NAMES = {"bound", "old", "forall", "exists", "implies", "iff", "ite", "len", "min", "max", "abs", "ord", "chr", "result", "True", "False", "None", "ntokens", "new_tokens", "strfun", "aslist",
               "cache_get", "forall_atoms", "altlen", "altelem", "ischar", "int", "str", "bool", "value", "index"}
 
 
@@ -103,6 +103,8 @@ class StmtMixin:
 
     def s_Return(self, st, fr):
         v = self.eval(st.value, fr) if st.value is not None else NONE
+        if fr is self.frames[0] and any(p == "return" for p, _, _ in (self.contract.at or [])):
+            self.check_at(st, fr, "return", v)
         r = ReturnSig(v)
         r.node = st
         raise r
@@ -317,6 +319,7 @@ class StmtMixin:
         if isinstance(base, VObj) and base.cls in ("<opaque>", "<optlist>", "<map>"):
             # a store into an opaque mapping (env and what hangs off it): outside the modelled heap; the contract of the
             # function says nothing about it and nothing modelled can alias it
+            self.opaque_epoch += 1
             self.assumption_log.add("stores into opaque mappings (env) do not alias modelled state")
             return
         raise Unsupported(f"subscript store on {base!r}")
